@@ -198,6 +198,12 @@ def commonPositions (tables : List (List Call)) : List Nat :=
 def phasesOf (table : List Call) (common : List Nat) : List (Option (Nat × List Nat)) :=
   common.map fun p => (table.find? (·.pos == p)).bind phaseOf
 
+/-- fixes/F46.patch: in diploid mode the phase of a call with an allele index ≥ 2 is not assessed (the diploid formulas
+derive everything from the first haplotype, which determines the second only for alleles 0/1) -/
+def phasesOfP (fix46 : Bool) (ploidy : Nat) (table : List Call) (common : List Nat) : List (Option (Nat × List Nat)) :=
+  common.map fun p => (table.find? (·.pos == p)).bind fun c =>
+    if fix46 && ploidy == 2 && c.gt.any (fun a => decide (1 < a)) then none else phaseOf c
+
 def addToBlocks (key : List Nat) (vi : Nat) : List (List Nat × List Nat) → List (List Nat × List Nat)
   | [] => [(key, [vi])]
   | (k, l) :: rest => if k = key then (k, l ++ [vi]) :: rest else (k, l) :: addToBlocks key vi rest
@@ -279,10 +285,10 @@ def pairLoop (fixA fixB fix3 fix45 : Bool) (ploidy : Nat) (ph0 ph1 : List (Optio
 
 /-- `compare([t0, t1], …)` with `ploidy`: everything `--tsv-pairwise`, `--switch-error-bed` and
 `--longest-block-tsv` are computed from.  `none` = the command dies with an exception. -/
-def comparePair (fixA fixB fix3 fix45 : Bool) (ploidy : Nat) (t0 t1 : List Call) : Option PairResult :=
+def comparePair (fixA fixB fix3 fix45 fix46 : Bool) (ploidy : Nat) (t0 t1 : List Call) : Option PairResult :=
   let common := commonPositions [t0, t1]
-  let ph0 := phasesOf t0 common
-  let ph1 := phasesOf t1 common
+  let ph0 := phasesOfP fix46 ploidy t0 common
+  let ph1 := phasesOfP fix46 ploidy t1 common
   let blocks := jointBlocks [ph0, ph1] common.length
   let big := blocks.filter (fun b => decide (2 ≤ b.2.length))
   match pairLoop fixA fixB fix3 fix45 ploidy ph0 ph1 common blocks {} with
@@ -320,9 +326,9 @@ def multiwayKeys (encs : List Hap) (m : Nat) : List Hap :=
 
 /-- `compare_multiway`: (total compared pairs, histogram sorted by key); `none` = the `assert` on the first
 (smallest) bipartition fails because it is not the all-agree one (finding FC11c; `fixC` = assert removed) -/
-def compareMultiway (fixC : Bool) (tables : List (List Call)) : Option (Nat × List (Hap × Nat)) :=
+def compareMultiway (fixC fix46 : Bool) (tables : List (List Call)) : Option (Nat × List (Hap × Nat)) :=
   let common := commonPositions tables
-  let phases := tables.map (phasesOf · common)
+  let phases := tables.map (phasesOfP fix46 2 · common)
   let blocks := (jointBlocks phases common.length).filter (fun b => decide (2 ≤ b.2.length))
   let total := (blocks.map (fun b => b.2.length - 1)).sum
   let keys := blocks.flatMap fun b =>
